@@ -3,6 +3,7 @@ import NixModel.Lemmas.C06Slice
 import NixModel.Lemmas.C06View
 import NixModel.Lemmas.C06Array
 import NixModel.Lemmas.C06Gen
+import NixModel.Lemmas.C06Data
 
 /-!
 # C06 — index expressions on arrays and views mean what they mean in NumPy
@@ -327,6 +328,99 @@ theorem C06_generated_view_read (shape : List Nat) (ws : List Win) (hw : Windows
     rw [hrd]
     exact key
 
+
+/-! ## `get_slice` in DATA mode (positions in the units of the dimension descriptors)
+
+`Pure/ViewData.lean` models `_get_slice_bydim`; the conversions are C07's `index_of`
+(`Pure/Dim.lean`), so C07's order-theoretic characterisation composes with the window theorems. -/
+
+open Nix.ViewData Nix.Dim in
+/-- **DATA-mode slice = index-mode window.**  With as many positions and extents as dimensions,
+`get_slice(positions, extents, DataSliceMode.Data)` is decided by the per-dimension loop:
+an error of a conversion propagates; a negative extent anywhere gives an invalid view (reads
+empty, refuses writes); otherwise the view is `DataView` on the windows the loop produced, hence
+valid exactly when every window lies inside the array — and then it is the view all C06
+theorems speak about (`ViewOK`), reading `parent[start:stop]` on every axis. -/
+theorem C06_data_slice (shape : List Nat) (dims : List DimDesc) (pos ext : List Rat)
+    (hp : pos.length = shape.length) (he : ext.length = shape.length) :
+    match bydimLoop dims pos ext with
+    | .error e => getSliceData shape dims pos (some ext) = .error e
+    | .ok none =>
+      ∃ v, getSliceData shape dims pos (some ext) = .ok v ∧ v.valid = false ∧
+        ∀ ix, viewRead v ix = .ok .empty ∧ viewWrite v ix = .error .invalidSlice
+    | .ok (some ws) =>
+      getSliceData shape dims pos (some ext) = .ok (mkView shape (some (ws.map some))) ∧
+      ((mkView shape (some (ws.map some))).valid = true ↔ WindowsIn ws shape) ∧
+      (WindowsIn ws shape →
+        mkView shape (some (ws.map some)) = ⟨shape, true, ws⟩ ∧ ViewOK ⟨shape, true, ws⟩ ∧
+        viewRead ⟨shape, true, ws⟩ none = .ok (.sel (windowSel ws))) := by
+  have hg : ∀ r, bydimLoop dims pos ext = r → getSliceData shape dims pos (some ext) =
+      (match r with
+        | .error e => .error e
+        | .ok none => .ok (mkView shape none)
+        | .ok (some ws) => .ok (mkView shape (some (ws.map some)))) := by
+    intro r hr
+    unfold getSliceData
+    simp only [hp, he, ne_eq, not_true_eq_false, and_false, if_false, hr]
+    cases r with
+    | error e => rfl
+    | ok o => cases o <;> rfl
+  split
+  · rename_i e h; rw [hg _ h]
+  · rename_i h
+    refine ⟨mkView shape none, by rw [hg _ h], rfl, ?_⟩
+    intro ix
+    exact (C06_window shape []).2.2.2.2 (mkView shape none) rfl ix
+  · rename_i ws h
+    refine ⟨by rw [hg _ h], mkView_valid_iff shape ws, ?_⟩
+    intro hw
+    have hok : ViewOK (⟨shape, true, ws⟩ : View) := ⟨rfl, hw⟩
+    exact ⟨mkView_ok shape ws hw, hok, (C06_window_read _ hok).1⟩
+
+open Nix.ViewData Nix.Dim in
+/-- the windows the loop hands over: one per dimension (as many as the shortest of descriptors,
+positions, extents — an array with fewer descriptors than dimensions cannot give a valid view),
+each `(start, start + extent)` of that dimension's conversion with `extent ≥ 0` -/
+theorem C06_data_windows (d : DimDesc) (ds : List DimDesc) (p : Rat) (ps : List Rat) (e : Rat)
+    (es : List Rat) (w : Win) (ws : List Win) :
+    (bydimLoop (d :: ds) (p :: ps) (e :: es) = .ok (some (w :: ws)) ↔
+      ∃ s x, bydimAxis d p e = .ok (s, x) ∧ 0 ≤ x ∧ w = (s, s + x) ∧
+        bydimLoop ds ps es = .ok (some ws)) ∧
+    (∀ ws', bydimLoop (d :: ds) (p :: ps) (e :: es) = .ok (some ws') →
+      ws'.length = min (ds.length + 1) (min (ps.length + 1) (es.length + 1))) ∧
+    bydimAxis .set p e = .ok (truncRat p, truncRat e) :=
+  ⟨bydimLoop_cons d ds p ps e es w ws,
+   fun ws' h => by simpa using bydimLoop_length (d :: ds) (p :: ps) (e :: es) ws' h, rfl⟩
+
+open Nix.ViewData Nix.Dim in
+/-- **What a DATA-mode window contains, range dimension (full strength: every ascending tick
+list, every position and extent).**  When the loop keeps the dimension (`extent ≥ 0`), `start` is
+the first tick at or after `pos` and `start + extent` the last tick at or before `pos + ext`
+(C07's `index_of` theorem); every sample read through the view has its tick in `[pos, pos + ext]`,
+and every tick in `[pos, pos + ext]` is read or is the end sample `start + extent` itself.
+The conversion yields `(-1, -1)` — an invalid, empty view — only when no tick lies at or after
+`pos` or none at or before `pos + ext`. -/
+theorem C06_data_axis_range (ticks : List Rat) (hasc : AscendingList ticks) (pos ext : Rat) :
+    (∀ s x, bydimAxis (.range ticks) pos ext = .ok (s, x) → 0 ≤ x →
+      WindowMeaning (tickCoord ticks) (some ticks.length) pos (pos + ext) s x) ∧
+    ((∃ s x, bydimAxis (.range ticks) pos ext = .ok (s, x) ∧
+        startExtent (rangeIndexOf ticks pos .geq) (rangeIndexOf ticks (pos + ext) .leq) = .ok (s, x)) ∨
+     (bydimAxis (.range ticks) pos ext = .ok (-1, -1) ∧
+        ((∀ k, ¬ IsFirstAtOrAfter (tickCoord ticks) (some ticks.length) pos k) ∨
+         (∀ k, ¬ IsLastAtOrBefore (tickCoord ticks) (some ticks.length) (pos + ext) k)))) :=
+  ⟨fun s x h hx => range_axis_meaning ticks hasc pos ext s x h hx, range_axis_cases ticks hasc pos ext⟩
+
+open Nix.ViewData Nix.Dim in
+/-- the same for a sampled dimension (any offset, positive interval), under C07's `Separated`
+hypothesis at `pos` and at `pos + ext` (the position is on a sample or outside the `np.isclose`
+band of every sample) -/
+theorem C06_data_axis_sampled (off si pos ext : Rat) (hsi : 0 < si)
+    (hs1 : Nix.ViewData.SeparatedSampled off si pos)
+    (hs2 : Nix.ViewData.SeparatedSampled off si (pos + ext))
+    (s x : Int) (h : bydimAxis (.sampled off si) pos ext = .ok (s, x)) (hx : 0 ≤ x) :
+    WindowMeaning (sampledCoord off si) none pos (pos + ext) s x :=
+  sampled_axis_meaning off si pos ext hsi hs1 hs2 s x h hx
+
 /-! Non-vacuity: concrete views and tuples meeting the hypotheses, evaluated by the kernel. -/
 
 /-- `da.get_slice((1, 1), (2, 2))` on a 3×4 array -/
@@ -349,5 +443,20 @@ example : (mkView [10] (some [some (-3, -1)])).valid = false := by decide
 example : (mkView [10] (some [some (-1, 1)])).valid = false := by decide
 example : (mkView [10] (some [some (2, -1)])).valid = false := by decide
 example : viewWrite (mkView [10] (some [some (2, 7)])) (some [Ix.int 0]) = .ok [.pick 2] := by rfl
+
+/-- the compiled branches on concrete numbers: `view[-1]` on the window `[1, 3)`, and the slice
+`view[-5:100:2]` on the window `[2, 7)` -/
+example : transformInt (-1) 1 3 = .ok 2 := by decide
+example : transformInt 2 1 3 = .error .outOfBounds := by decide
+example : transformSlice ⟨some (-5), some 100, some 2⟩ 2 7 = .ok (2, 7, 2) := by decide
+example : expandUserSlices [.int 0, .ellipsis] 3 = .ok [.int 0, .slice PySlice.full, .slice PySlice.full] := by
+  decide
+/-- DATA mode on ticks 1, 2, 3, 5: `get_slice([2.0], [3.0], Data)` is the window `[1, 3)`
+(ticks 2 and 3; the end sample 5 = `pos + ext` itself is left out), and positions beyond the last
+tick give the invalid, empty view -/
+example : Nix.ViewData.bydimLoop [.range [1, 2, 3, 5]] [2] [3] = .ok (some [(1, 3)]) := by decide +kernel
+example : Nix.ViewData.bydimLoop [.range [1, 2, 3, 5]] [6] [1] = .ok none := by decide +kernel
+example : Nix.Dim.AscendingList [1, 2, 3, 5] := by
+  unfold Nix.Dim.AscendingList; decide +kernel
 
 end Nix.C06
